@@ -18,7 +18,7 @@ use mls_rs_crypto_rustcrypto::RustCryptoProvider;
 use std::collections::BTreeMap;
 use std::sync::{Arc, Mutex};
 
-pub type Crypto = RecProvider<RustCryptoProvider>;
+pub type Crypto = RecProvider<crate::anyprov::AnyProvider>;
 
 #[derive(Clone, Debug)]
 pub struct Setup {
@@ -30,6 +30,8 @@ pub struct Setup {
     pub single_welcome: bool,
     pub path_required: bool,
     pub enc_ctl: bool,
+    /// 0 = RustCrypto (default), 1 = OpenSSL, 2 = AWS-LC
+    pub provider: u8,
 }
 
 impl Setup {
@@ -43,6 +45,7 @@ impl Setup {
             single_welcome: true,
             path_required: false,
             enc_ctl: false,
+            provider: 0,
         }
     }
 }
@@ -87,7 +90,7 @@ pub fn handles(s: &Setup, log: &SharedCryptoLog, scratch: &str) -> Handles {
         kp: VKp { inner: InMemoryKeyPackageStorage::new(), fault: fault.clone() },
         psk: VPsk { inner: Arc::new(Mutex::new(InMemoryPreSharedKeyStorage::default())), fault: fault.clone() },
         idp: VId { fault: fault.clone(), rejected: Default::default() },
-        crypto: RecProvider { inner: RustCryptoProvider::default(), log: log.clone() },
+        crypto: RecProvider { inner: crate::anyprov::AnyProvider::by_index(s.provider), log: log.clone() },
         fault,
         sqlite_path,
     }
@@ -386,7 +389,11 @@ pub fn new_world<C: MlsConfig>(log: SharedCryptoLog, scratch: &str) -> World<C> 
 }
 
 pub fn make_identity(name: &str, suite: u16) -> (SigningIdentity, mls_rs::crypto::SignatureSecretKey) {
-    let cs = RustCryptoProvider::default().cipher_suite_provider(CipherSuite::from(suite)).expect("suite");
+    // RustCrypto for the suites it has, OpenSSL (all seven) otherwise
+    let cs = crate::anyprov::AnyProvider::by_index(0)
+        .cipher_suite_provider(CipherSuite::from(suite))
+        .or_else(|| crate::anyprov::AnyProvider::by_index(1).cipher_suite_provider(CipherSuite::from(suite)))
+        .expect("suite");
     let (sk, pk) = cs.signature_key_generate().unwrap();
     (SigningIdentity::new(BasicCredential::new(name.as_bytes().to_vec()).into_credential(), pk), sk)
 }
